@@ -172,7 +172,7 @@ static bool run_c15(const Case &c, Verdict &v, bool &nontrivial) {
     // arbitrary strings through the three string setters: an error or a configuration within range, never a crash / leak / hang
     int st = 0; ares_channel_t *ch = init_from("", "", nullptr, st); if (!ch) return failv(v, "C15.init-failed", ares_strerror(st));
     std::string s = c.str; nontrivial = !s.empty(); int rc = 0;
-    if (c.kind == "sortlist") { Snap before = snapshot(ch); rc = ares_set_sortlist(ch, s.c_str()); if (rc != ARES_SUCCESS) { Snap after = snapshot(ch); std::string d = diff(before, after, {"sortlist", "optmask"}); if (!d.empty()) { ares_destroy(ch); return failv(v, "C15.failed-setter-changed-configuration", d); } } stats().count(rc == ARES_SUCCESS ? "c15.sortlist_accepted" : "c15.sortlist_rejected"); }
+    if (c.kind == "sortlist") { if (s.size() & 1) ares_set_sortlist(ch, "10.0.0.0/8 172.16.0.0/255.240.0.0"); Snap before = snapshot(ch); rc = ares_set_sortlist(ch, s.c_str()); if (rc != ARES_SUCCESS) { Snap after = snapshot(ch); std::string d = diff(before, after); if (!d.empty()) { ares_destroy(ch); return failv(v, "C15.failed-setter-changed-configuration", d); } } stats().count(rc == ARES_SUCCESS ? "c15.sortlist_accepted" : "c15.sortlist_rejected"); }
     else if (c.kind == "csv") { Snap before = snapshot(ch); rc = (s.size() & 1) ? ares_set_servers_ports_csv(ch, s.c_str()) : ares_set_servers_csv(ch, s.c_str()); Snap after = snapshot(ch); if (rc != ARES_SUCCESS) { std::string d = diff(before, after); if (!d.empty()) { ares_destroy(ch); return failv(v, "C15.failed-setter-changed-configuration", d); } } stats().count(rc == ARES_SUCCESS ? "c15.csv_accepted" : "c15.csv_rejected"); }
     else { ares_sysconfig_t sc; memset(&sc, 0, sizeof sc); rc = ares_sysconfig_set_options(&sc, s.c_str()); if (rc != ARES_SUCCESS && rc != ARES_ENOMEM) { ares_destroy(ch); return failv(v, "C15.options-string-error", ares_strerror(rc)); } stats().count("c15.options_strings"); }
     bool rok = ranges_ok(ch, v, c.kind == "csv"); ares_destroy(ch); return rok;   // (an empty list given to the setter legitimately clears the servers)
